@@ -1,4 +1,5 @@
 import Uhppote.Model.Api
+import Uhppote.Gen.Ops
 import Uhppote.Spec.Api
 import Uhppote.Gen.Routing
 /-! # C07 — invalid arguments are rejected before anything is sent
@@ -9,6 +10,7 @@ rejection rule of the property. -/
 set_option linter.unusedSimpArgs false
 namespace Uhppote.Props.C07
 open Uhppote Uhppote.Model Uhppote.Model.Api
+open Uhppote.Gen.Ops (ops findOp)
 
 /-- Wiegand-26 as the code computes it = facility code 0..255 followed by a five-digit number
     0..65535, for EVERY card number (all of uint32 and beyond) -/
@@ -33,6 +35,26 @@ theorem C07_formats (card : Nat) (fs : List Nat) : isCardNumberValid card fs = S
     by_cases h1 : f = 1
     · subst h1; simp
     · by_cases h0 : f = 0 <;> simp [h1, h0]
+
+/-- the helpers as regenerated from uhppote/put_card.go are the hand-written ones the lemmas above are about -/
+theorem C07_helpers_regenerated :
+    Gen.Ops.isWiegand26 = Model.Api.isWiegand26 ∧ (∀ n, Gen.Ops.isWiegandAny n = true) ∧
+    Gen.Ops.isCardNumberValid = Model.Api.isCardNumberValid := by
+  refine ⟨rfl, fun _ => rfl, ?_⟩
+  funext card fs
+  unfold Gen.Ops.isCardNumberValid Model.Api.isCardNumberValid
+  congr 1
+  induction fs with
+  | nil => rfl
+  | cons f r ih =>
+    simp only [List.any_cons, ih]
+    congr 1
+    have hw : Gen.Ops.isWiegand26 card = Model.Api.isWiegand26 card := rfl
+    by_cases h1 : f = 1
+    · subst h1; simp [hw, Gen.Ops.isWiegandAny]
+    · by_cases h0 : f = 0
+      · subst h0; simp [Gen.Ops.isWiegandAny]
+      · simp [h1, h0]
 
 theorem u8_toNat (x : Arg) : (u8? x).toNat = Spec.Api.n8 x := by
   cases x with
@@ -71,6 +93,30 @@ theorem notIPv4_eq (x : Arg) : notIPv4 x = !Spec.Api.isIPv4 x := by
     | _ => rfl
   | _ => rfl
 
+/-- SetListener's two address guards (`!address.IsValid()`, then `address != 0.0.0.0:0 && (!Is4 ||
+    port == 0)`), as translated, are the rule "anything but 0.0.0.0:0 or an IPv4 address with a
+    non-zero port is rejected" -/
+theorem listener_eq (x : Arg) :
+    (!(apValid x) || (!(apIsZero x) && (!(apIs4 x) || (apPort x == 0)))) =
+    (match x with
+     | .v (.addrPort (.v4 x y z w p)) => !((x == 0 && y == 0 && z == 0 && w == 0 && p == 0) || p != 0)
+     | _ => true) := by
+  cases x with
+  | v y =>
+    cases y with
+    | addrPort ap =>
+      cases ap with
+      | v4 a b c d p =>
+        simp only [apValid, apIsZero, apIs4, apPort]
+        by_cases hp : p = 0
+        · subst hp; simp
+        · have h1 : (p == 0) = false := by simpa using hp
+          have h2 : (p != 0) = true := by simp [bne, h1]
+          simp [h1, h2]
+      | other => rfl
+    | _ => rfl
+  | _ => rfl
+
 /-- **the guards of every operation are exactly the rejection rule of the property** — for all
     argument tuples of all 31 `sendto`-based operations -/
 theorem C07_guards : ∀ op ∈ ops, ∃ sop, Spec.Api.findOp op.name = some sop ∧
@@ -85,10 +131,10 @@ theorem C07_guards : ∀ op ∈ ops, ∃ sop, Spec.Api.findOp op.name = some sop
   -- SetAddress
   · simp only [devZero_eq, notIPv4_eq, Spec.Api.a, arg]
   -- SetListener
-  · simp only [devZero_eq]; rfl
+  · simp only [devZero_eq, Bool.or_assoc, listener_eq]; rfl
   -- PutCard
   · show (devZero args || _ || _ || _ || _ || _) = (Spec.Api.noId args || _ || _ || _ || _ || _)
-    rw [devZero_eq, C07_formats]
+    rw [devZero_eq, C07_helpers_regenerated.2.2, C07_formats]
     rfl
   -- SetTimeProfile
   · simp only [devZero_eq, seg_eq, Spec.Api.a, arg]
